@@ -143,7 +143,9 @@ def ambiguity(ctx):
     if ok:
         second = nx[1] if cfg.dominates(nx[0].bb, nx[1].bb) else nx[0]
         isn = [t for t in f.calls() if (t.path or "").endswith(("Option::is_some", "Option::is_none")) and any(x is second for _, x in prov.slice(f, t.args[0]).calls)]
-        ok = bool(isn)
+        # or a `match` on the second result's discriminant
+        dis = [s for s in f.stmts() if s.rv.k == "discr" and any(x is second for _, x in prov.slice(f, s.rv.place).calls)]
+        ok = bool(isn) or bool(dis)
     ctx.ob("R04.3", "suffix|unique-match", ok, "the match is accepted only if the same iterator yields no second match" if ok else
            "the ambiguity test is not `second match exists` on the same iterator (next sites=%d, counting adaptors=%s): after taking the first match, counting the rest mis-detects exactly two candidates" % (len(nx), [t.path.rsplit('::', 1)[-1] for t in cnt]),
            site=f.span)
